@@ -628,4 +628,13 @@ func variable.InheritFrom$1
   requires v != nil && *v != nil
   modifies everything
   ghost before call variable.Set: assert arg0 == *v && arg1 == newValue
+-- Monitor subscribes WITH the initial value: an input whose current value already satisfies the condition (for conditions the
+-- zero value satisfies too) is counted from the start
+-- (checked for this statement only - opt only-ghost-asserts)
+func counter.Monitor
+  instantiate InputType: int
+  opt only-ghost-asserts
+  requires c != nil && input != nil
+  modifies everything
+  ghost before call ReadableVariable.OnUpdate: assert arg0 == input && len(arg2) == 1 && arg2[0]
 @*/
